@@ -140,6 +140,18 @@ fn debug_regs_of(pid: i32) -> Result<Vec<(i32, u64, [u64; 4])>, String> {
     Ok(out)
 }
 
+/// the forwarder thread of the harness may be starved on a loaded machine: wait (bounded) for the expected bytes
+fn wait_captured_eq(c: &std::sync::Arc<std::sync::Mutex<Vec<u8>>>, want: &[u8], ms: u64) -> Vec<u8> {
+    let t0 = std::time::Instant::now();
+    loop {
+        let got = c.lock().unwrap().clone();
+        if got == want || t0.elapsed() > std::time::Duration::from_millis(ms) {
+            return got;
+        }
+        std::thread::sleep(std::time::Duration::from_millis(3));
+    }
+}
+
 /// inspect a process that must have been released alive; then let it finish and compare with native
 #[allow(clippy::too_many_arguments)]
 fn inspect_released(log: &mut iso::Log, pid: i32, bin: &Path, flag: Option<&Path>, out_file: Option<&Path>, captured: Option<&std::sync::Arc<std::sync::Mutex<Vec<u8>>>>,
@@ -186,7 +198,7 @@ fn inspect_released(log: &mut iso::Log, pid: i32, bin: &Path, flag: Option<&Path
     }
     let mut code: Option<i32> = None;
     let mut gone = false;
-    for _ in 0..3000 {
+    for _ in 0..30000 {
         if is_our_child {
             match waitpid(Pid::from_raw(pid), Some(WaitPidFlag::WNOHANG)) {
                 Ok(WaitStatus::Exited(_, c)) => {
@@ -211,7 +223,7 @@ fn inspect_released(log: &mut iso::Log, pid: i32, bin: &Path, flag: Option<&Path
         }
         std::thread::sleep(std::time::Duration::from_millis(2));
     }
-    check(log, "released-completes", gone, "the released process did not finish within 6 s".into());
+    check(log, "released-completes", gone, "the released process did not finish within 60 s".into());
     if !gone {
         let _ = nix::sys::signal::kill(Pid::from_raw(pid), nix::sys::signal::Signal::SIGKILL);
         return;
@@ -219,7 +231,7 @@ fn inspect_released(log: &mut iso::Log, pid: i32, bin: &Path, flag: Option<&Path
     std::thread::sleep(std::time::Duration::from_millis(15));
     let out: Vec<u8> = match (out_file, captured) {
         (Some(f), _) => std::fs::read(f).unwrap_or_default(),
-        (None, Some(c)) => c.lock().unwrap().clone(),
+        (None, Some(c)) => wait_captured_eq(c, native_out, 10_000),
         _ => vec![],
     };
     check(log, "released-native-output", out == native_out, format!("output {:?}, native {:?}", String::from_utf8_lossy(&out), String::from_utf8_lossy(native_out)));
@@ -391,10 +403,7 @@ fn world_child(log: &mut iso::Log, bin: &Path, scratch: &str, tag: &str, plan: &
         std::thread::sleep(std::time::Duration::from_millis(10));
         inspect_gone(log, pid, "exited-process-reaped");
         let out: Vec<u8> = match &captured {
-            Some(c) => {
-                std::thread::sleep(std::time::Duration::from_millis(20));
-                c.lock().unwrap().clone()
-            }
+            Some(c) => wait_captured_eq(c, native_out, 10_000),
             None => std::fs::read(&out_file).unwrap_or_default(),
         };
         check(log, "exited-native-output", out == native_out, format!("output {:?}, native {:?}", String::from_utf8_lossy(&out), String::from_utf8_lossy(native_out)));
